@@ -30,6 +30,9 @@ type World struct {
 	GenSig  cipher.Sig // filled by the first publisher node
 	Keys    []cipher.SecKey
 	Addrs   []cipher.Address
+	// Tweak, when set, adjusts a node's configuration (block-creation / unconfirmed policy
+	// parameters, which are not consensus rules) after the defaults are filled in
+	Tweak func(c *visor.Config, publisher bool)
 }
 
 // NewWorld derives every key deterministically from seed bytes.
@@ -90,6 +93,9 @@ func (w *World) config(publisher bool) visor.Config {
 	c.GenesisCoinVolume = w.GenVol
 	c.GenesisSignature = w.GenSig
 	c.Distribution = params.MainNetDistribution
+	if w.Tweak != nil {
+		w.Tweak(&c, publisher)
+	}
 	return c
 }
 
